@@ -20,6 +20,8 @@ ENGINE_PATCHES = [
     'crosshair.opcode_intercept.BoolStashingValue.__bool__ failed on proxies without __bool__ (x = not symbolic_bytes) -> falls back to len()',
     'symbolic bytes.split(sep) realized the bytes -> find()-based definition for non-empty sep without maxsplit',
     'crosshair.simplestructs.SequenceConcatenation.__eq__ returned False for an empty concrete tail vs empty symbolic slice -> empty halves are skipped',
+    'crosshair.libimpl.builtinslib.SymbolicBoundedIntTuple.__getitem__(slice) raised CrossHairInternal when more element variables had been '
+    'created than the realized length (str.split(",") item .partition(";")) -> the slice is taken from the first len() variables',
 ]
 _installed = False
 
@@ -158,6 +160,26 @@ def patch_crosshair():
         return first == other[:firstlen] and second == other[firstlen:]
     if os.environ.get('VERIF_NO_CONCAT_PATCH') != '1':
         _ss.SequenceConcatenation.__eq__ = _concat_eq
+
+    # CrossHair 0.0.110: SymbolicBoundedIntTuple.__getitem__(slice), fallback branch: after realizing the exact length it
+    # raises CrossHairInternal if MORE element variables exist than that length (they were created speculatively by an
+    # earlier prefix access).  The surplus variables are unconstrained and not part of the value: slice the first len().
+    import crosshair.libimpl.builtinslib as _bl2
+    from crosshair.util import CrossHairInternal as _CHI
+    from crosshair.core import realize as _realize
+    _orig_getitem = _bl2.SymbolicBoundedIntTuple.__getitem__
+
+    def _bounded_getitem(self, argument):
+        try:
+            return _orig_getitem(self, argument)
+        except _CHI as e:
+            if '_created_vars exceeded actual length' not in str(e) or not isinstance(argument, slice):
+                raise
+            with _NoTracing():
+                n = _realize(self._len)
+                start, stop, step = _realize(argument.start), _realize(argument.stop), _realize(argument.step)
+                return self._created_vars[:n][start:stop:step]
+    _bl2.SymbolicBoundedIntTuple.__getitem__ = _bounded_getitem
 
 
 def verify_pure():
